@@ -10,7 +10,7 @@
                         identifiers, formulae and SMILES-like labels, e.g. CC(=O)O, C#C, Fe(OH)3 ([ex_label_domain]).
       [rxns_of H]       the stored reactions (rule, reactants, products) as a list; multiset equality is [≡ₚ]. *)
 From stdpp Require Import gmap strings sets.
-From SK Require Import lib.Tok model.C15_Model proof.C15_Proof model.C16_Model proof.C16_Defs proof.C16_Chars proof.C16_Str proof.C16_Sg proof.C16_BipA proof.C16_BipB proof.C16_Reach proof.C16_SgMol proof.C16_StrItems.
+From SK Require Import lib.Tok model.C15_Model proof.C15_Proof model.C16_Model proof.C16_Defs proof.C16_Chars proof.C16_Str proof.C16_Sg proof.C16_BipA proof.C16_BipB proof.C16_Reach proof.C16_SgMol proof.C16_StrItems proof.C16_StrOrder.
 Local Open Scope string_scope.
 
 (** every network reachable through the store operations (C15_inv_reachable) satisfies the decidable premise used below *)
@@ -152,3 +152,20 @@ Theorem C16_strings_roundtrip_prefer_suffix :
     ≡ₚ rxns_of H.
 Proof. exact strings_roundtrip_prefer_suffix. Qed.
 Print Assumptions C16_strings_roundtrip_prefer_suffix.
+
+(** printing in insertion order ([sort=False]) and parsing back keeps the SEQUENCE of reactions ([rxn_seq] = the stored
+    (rule, reactants, products) in insertion order; ids are regenerated); with [sort=True] the sequence follows the sorted
+    ids instead ([ex_order]) *)
+Theorem C16_strings_roundtrip_order : ∀ (H : net) (include_id prefer_suffix : bool) (default_rule : string),
+  wf16 H → strings_domain H = true →
+  rxn_seq (rxns_to_hypergraph (hypergraph_to_rxn_strings H true include_id false) default_rule true prefer_suffix).1 = rxn_seq H.
+Proof. exact strings_roundtrip_order. Qed.
+Print Assumptions C16_strings_roundtrip_order.
+
+(** the facades take their defaults from here: _as_bipartite without keywords = integer ids, "S:"/"R:", coefficients, roles,
+    isolated species, no edge-id attribute, no mol *)
+Theorem C16_as_bipartite_defaults : ∀ H : net,
+  as_bipartite None None None None H
+  = hypergraph_to_bipartite (BFlags (Some "S:") (Some "R:") 0 1 true true true true false false) H.
+Proof. reflexivity. Qed.
+Print Assumptions C16_as_bipartite_defaults.
